@@ -201,10 +201,15 @@ func (g *TemplateGenerator) format(src []byte) ([]byte, error) {
 	return nil, fmt.Errorf("unknown formatter type: %s", g.formatter)
 }
 
-func (g *TemplateGenerator) methodData(ctx context.Context, method *types.Func, ifaceConfig *config.Config) (template.Method, error) {
+func (g *TemplateGenerator) methodData(ctx context.Context, method *types.Func, ifaceConfig *config.Config, tParams []template.TypeParam) (template.Method, error) {
 	log := zerolog.Ctx(ctx)
 
 	methodScope := g.registry.MethodScope()
+	// The type parameters of the mock are declared in the same scope as the
+	// parameters of its methods.
+	for _, tParam := range tParams {
+		methodScope.AddName(tParam.Name())
+	}
 
 	signature := method.Type().(*types.Signature)
 	params := make([]template.Param, signature.Params().Len())
@@ -313,6 +318,9 @@ func (g *TemplateGenerator) typeParams(ctx context.Context, tparams *types.TypeP
 
 	scope := g.registry.MethodScope()
 	for i := 0; i < len(tpd); i++ {
+		scope.AddName(tparams.At(i).Obj().Name())
+	}
+	for i := 0; i < len(tpd); i++ {
 		tp := tparams.At(i)
 		typeParam := types.NewParam(token.Pos(i), tp.Obj().Pkg(), tp.Obj().Name(), tp.Constraint())
 		v, err := scope.AddVar(ctx, typeParam, "", nil)
@@ -321,7 +329,12 @@ func (g *TemplateGenerator) typeParams(ctx context.Context, tparams *types.TypeP
 		}
 		// The method signatures refer to the type parameter by its declared
 		// name, so it must not be renamed, even if it shadows an import.
-		v.Name = tp.Obj().Name()
+		// A blank type parameter can't be referred to at all: the mock has
+		// to name it in order to instantiate itself, so it keeps the name
+		// the scope allocated.
+		if tp.Obj().Name() != "_" {
+			v.Name = tp.Obj().Name()
+		}
 		tpd[i] = template.TypeParam{
 			Param:      template.Param{Var: v},
 			Constraint: explicitConstraintType(typeParam),
@@ -424,9 +437,14 @@ func (g *TemplateGenerator) Generate(
 		}
 		ifaceLog.Debug().Msg("found interface")
 
+		tParams, err := g.typeParams(ctx, tparams)
+		if err != nil {
+			return nil, err
+		}
+
 		methods := make([]template.Method, iface.NumMethods())
 		for i := 0; i < iface.NumMethods(); i++ {
-			methodData, err := g.methodData(ctx, iface.Method(i), ifaceMock.Config)
+			methodData, err := g.methodData(ctx, iface.Method(i), ifaceMock.Config, tParams)
 			if err != nil {
 				return nil, err
 			}
@@ -445,10 +463,6 @@ func (g *TemplateGenerator) Generate(
 		}
 
 		ifaceLog.Debug().Str("template-data", fmt.Sprintf("%v", ifaceMock.Config.TemplateData)).Msg("printing template data")
-		tParams, err := g.typeParams(ctx, tparams)
-		if err != nil {
-			return nil, err
-		}
 		mockData = append(mockData, template.Interface{
 			Name:         ifaceMock.Name,
 			StructName:   *ifaceMock.Config.StructName,
